@@ -853,6 +853,33 @@ func (m *machine) applyAdjust(o fop) error {
 	}
 	before := m.c.Snapshot()
 	res := m.c.Deliver(&farmtypes.MsgAdjustPool{PoolId: poolID(o.Pool), AdditionalReward: add, RewardPerBlock: rpb, Creator: u.Addr.String()})
+	if res.Outcome == chain.Panicked && p != nil && strings.Contains(fmt.Sprint(res.Panic), "Int64()") {
+		// The schedule an adjustment asks for must end at a height that fits a signed 64-bit integer; the keeper
+		// refuses a longer one by panicking in the conversion (a transaction-level panic is turned into a failed
+		// transaction by baseapp). The property does not say how such a request is refused: it counts as a refusal
+		// when some rule's budget divided by its new rate really exceeds the range, and it must have no effect.
+		beyond := false
+		for _, r := range p.rules {
+			rate := r.rate
+			if v, ok := newRate[r.denom]; ok {
+				rate = v
+			}
+			budget := new(big.Int).Set(r.remaining)
+			if v, ok := topup[r.denom]; ok {
+				budget.Add(budget, v)
+			}
+			if rate.Sign() > 0 && !new(big.Int).Quo(budget, rate).IsInt64() {
+				beyond = true
+			}
+		}
+		if beyond {
+			if d := chain.Diff(before, m.c.Snapshot()); !d.Empty() {
+				return pbt.Failf(m.sig("refused-adjust-has-effect"), "h=%d refused adjust of pool %s moved %v", h, p.id, d)
+			}
+			m.class("adjust-refused:schedule-beyond-int64")
+			return nil
+		}
+	}
 	if res.Outcome == chain.Panicked {
 		if p != nil && h == p.end {
 			m.class("adjust-at-end-height")
